@@ -1,6 +1,6 @@
 (* C01: the ladder statements in propositional form, the lift to tool-grown histories, and the
    witnesses showing which hypotheses of c01_step cannot be dropped. *)
-From VV.M1 Require Import Oracles Hyp NormalizeP BtP DiffP DiffEqP KahnP ApplyLocalP DiffPermP AttrsP GrowP ChangeP C01P WitnessP.
+From VV.M1 Require Import Oracles Hyp NormalizeP BtP DiffP DiffEqP KahnP ApplyLocalP DiffPermP AttrsP GrowP ChangeP InlineP CoreP C01P WitnessP.
 From Coq Require Import Lia Permutation.
 
 (* split conjunctions only (never an equation: [split] on [eq] would unify by lazy conversion) *)
@@ -267,6 +267,45 @@ Theorem C01_change_histories H B T :
     Grown c01_change_models (H ++ [fill_plan p B]).
 Proof. exact (gen_histories change_only change_only_sound H B T). Qed.
 
+(* ---------- instances: the union of the rungs (c01_core) ---------- *)
+Lemma inl_only_sound : group_sound inl_only.
+Proof. exact inl_fold. Qed.
+Lemma core_only_sound : group_sound core_only.
+Proof.
+  intros b tn L Hfix Hp HP. unfold core_only in Hp. rewrite !orb_true_iff in Hp. destruct Hp as [[Hp|Hp]|Hp].
+  - exact (change_fold b tn L Hfix Hp HP).
+  - exact (inl_fold b tn L Hfix Hp HP).
+  - exact (mix_fold b tn L Hfix Hp HP).
+Qed.
+Definition c01_core_models : schema -> schema -> bool := c01_models core_only.
+
+Theorem c01_core_sound B T : baseline_ok B = true -> c01_core_models B T = true ->
+  exists acts B',
+    diff_actions B T = Ok acts /\ apply_all B acts = Ok B' /\ baseline_ok B' = true
+    /\ diff_actions B' T = Ok [] /\ diff_actions T B' = Ok [].
+Proof. exact (gen_step_sound core_only core_only_sound B T). Qed.
+
+Theorem C01_core B T : baseline_ok B = true -> c01_core_models B T = true -> closes_gap B T = true.
+Proof. exact (gen_closes core_only core_only_sound B T). Qed.
+
+Lemma c01_core_split B T : c01_core B T = (baseline_ok B && c01_core_models B T)%bool.
+Proof. reflexivity. Qed.
+
+Theorem C01_core_history_baseline H : Grown c01_core_models H ->
+  exists B, replay H = Ok B /\ baseline_ok B = true.
+Proof. exact (gen_history_baseline core_only core_only_sound H). Qed.
+
+Theorem C01_core_histories H B T :
+  Grown c01_core_models H -> replay H = Ok B -> c01_core_models B T = true ->
+  exists p B',
+    plan_next T H = Ok p /\ closes_gap B T = true /\
+    replay (H ++ [fill_plan p B]) = Ok B' /\ baseline_ok B' = true /\
+    diff_actions B' T = Ok [] /\ diff_actions T B' = Ok [] /\
+    plan_next T (H ++ [fill_plan p B])
+      = Ok (mkPlan "" None None (next_version (H ++ [fill_plan p B])) []) /\
+    Grown c01_core_models (H ++ [fill_plan p B]).
+Proof. exact (gen_histories core_only core_only_sound H B T). Qed.
+
 (* attribute steps are growing steps *)
 Lemma attrs_only_grow b tn : attrs_only b tn = true -> grow_only b tn = true.
 Proof.
@@ -352,6 +391,34 @@ Lemma w_change_hyp :
         RemoveConstraint "t" (CIndex None ["c"]); RemoveConstraint "t" (CCheck "pos" "c > 0");
         AddConstraint "t" (CUnique None ["a"; "d"]);
         AddConstraint "t" (CForeignKey None ["c"] "new" ["id"] None None)].
+Proof. vm_conj. Qed.
+
+(* a core step outside c01_change: a dropped column that carries an inline index (its single-column
+   index goes with it, the planner emits no RemoveConstraint), a removed foreign key whose column
+   declares it inline (RemoveConstraint clears the declaration), and an added column with inline
+   unique / named index / foreign key (replay promotes them, the three AddConstraint are skipped) *)
+Definition w_core_ixcol (n : string) : column_def :=
+  mkCol n (TSimple Integer) true None None None None (Some (SBool true)) None.
+Definition w_core_c : column_def :=
+  mkCol "c" (TVarchar 8) true None None None (Some (SBool true)) (Some (SStr "ix_c")) (Some (FKStr "o.id")).
+Definition w_core_B : schema := Eval vm_compute in
+  w_norm [mkTable "o" None [pkcol "id"] [];
+          mkTable "t" None [pkcol "id"; icol "a"; w_core_ixcol "b"; fkcol "u" "o" "id"] [CCheck "pos" "a > 0"]].
+Definition w_core_T : schema :=
+  [mkTable "o" None [pkcol "id"] [];
+   mkTable "t" None [pkcol "id"; w_col "a" (TSimple Text) false (Some (DStr "x")) None; icol "u"; w_core_c]
+     [CUnique (Some "ua") ["a"]]].
+Lemma w_core_hyp :
+  c01_core w_core_B w_core_T = true /\ c01_change w_core_B w_core_T = false /\
+  loader_accepts w_core_T = true /\
+  diff_actions w_core_B w_core_T =
+    Ok [DeleteColumn "t" "b"; ModifyColumnType "t" "a" (TSimple Text) None;
+        ModifyColumnNullable "t" "a" false None; ModifyColumnDefault "t" "a" (Some "x");
+        AddColumn "t" w_core_c None; RemoveConstraint "t" (CCheck "pos" "a > 0");
+        RemoveConstraint "t" (CForeignKey None ["u"] "o" ["id"] None None);
+        AddConstraint "t" (CUnique (Some "ua") ["a"]); AddConstraint "t" (CUnique None ["c"]);
+        AddConstraint "t" (CForeignKey None ["c"] "o" ["id"] None None);
+        AddConstraint "t" (CIndex (Some "ix_c") ["c"])].
 Proof. vm_conj. Qed.
 
 Definition w_first_T : schema :=
